@@ -29,6 +29,7 @@ PaySet(e) == {e.pays[i] : i \in DOMAIN e.pays}
 
 CallOfEv(e) == Call(e.kind, e.p, e.x, e.traff, e.avail)
 ThreadEv(e) == e.op \in {"call", "grant", "release"}
+HasPays(e) == ThreadEv(e) \/ e.op = "probe"
 
 \* ------------------------------------------------------------------ the model follows the observed sections
 \* where goroutine t (call c) was observed after it went on: parked in its first contact, in a section, or blocked
@@ -69,6 +70,14 @@ DueAfter(e, a) ==
 \* ------------------------------------------------------------------ verdict: the statement of C32
 Verdict(e, a, post) ==
   IF e.op = "race" THEN Clause("C32:free_of_data_races", ~e.raceReported)
+  ELSE IF e.op = "probe" THEN
+       (IF ~e.deferred
+        THEN Clause("C32:payment_requested_when_credit_reaches_threshold", due \subseteq PaySet(e)) ELSE <<>>)
+    \o Clause("C32:unpaid_balance_is_credits_minus_payments_never_negative",
+               \A p \in Peers : e.probe[p] # <<>> =>
+                                /\ ProbeShape(e.probe[p])
+                                /\ ProbeVal(e.probe[p]) = post.unpaid[p]
+                                /\ ProbeVal(e.probe[p]) >= 0)
   ELSE IF ~ThreadEv(e) THEN <<>>
   ELSE
      \* a payment is requested whenever a credit leaves the unpaid balance at or above the threshold
@@ -117,7 +126,6 @@ Notes(e, a, post) ==
       ELSE <<>>)
   \o (IF e.op = "release" THEN Clause("release_found_the_goroutine_at_its_gate", e.done) ELSE <<>>)
   \o Clause("pay_channel_flushed", e.flushed)
-  \o Clause("all_idle_as_modelled", e.idle = (\A t \in Threads : post.pc[t] = "idle"))
 
 \* ------------------------------------------------------------------ monitor
 TInit == /\ l = 1 /\ A = InitA /\ res = [op |-> "init"] /\ nops = 0 /\ bad = <<>> /\ notes = <<>>
@@ -134,7 +142,7 @@ TStep ==
                            \A p \in Peers : e.probe[p] # <<>> => ProbeVal(e.probe[p]) = a0.unpaid[p])
                ELSE Verdict(e, a0, post)
          ns == IF start THEN <<>> ELSE Notes(e, a0, post)
-         probed == (start \/ ThreadEv(e)) /\ e.probe # <<>>
+         probed == (start \/ HasPays(e)) /\ e.probe # <<>>
      IN /\ l' = l + 1
         /\ bad' = IF cs = <<>> THEN bad ELSE Append(bad, BadRec(l, e, cs))
         /\ notes' = IF ns = <<>> \/ Len(notes) >= 20 THEN notes ELSE Append(notes, BadRec(l, e, ns))
@@ -142,7 +150,8 @@ TStep ==
                 THEN [post EXCEPT !.unpaid = [p \in Peers |-> IF e.probe[p] # <<>> THEN ProbeVal(e.probe[p]) ELSE @[p]]]
                 ELSE post
         /\ win' = IF start THEN [t \in Threads |-> {}] ELSE WinAfter(e, a0, post)
-        /\ due' = IF start \/ ~ThreadEv(e) THEN (IF start THEN {} ELSE due)
+        /\ due' = IF start THEN {}
+                  ELSE IF ~HasPays(e) THEN due
                   ELSE IF e.deferred THEN DueAfter(e, a0) ELSE {}
         /\ res' = [op |-> e.op]
         /\ UNCHANGED nops
